@@ -260,6 +260,56 @@ def scan_table_snapshots(repo, tier, seed):
     return [ob]
 
 
+def scan_bootstrap_guard(repo, tier, seed):
+    """C19 / C18: in the entry point of a loky worker (the __main__ block of popen_loky_posix) everything received from the parent - the preparation data,
+    spawn.prepare() and the process object with the initializer, initargs and queues it carries - is unpickled inside the bootstrapping guard
+    (process.current_process()._inheriting set before, deleted in the finally): user code run by unpickling (__reduce__, __setstate__) executes before
+    _process_worker installs the depth, and the guard (through _check_not_importing_main) is the only thing that stops it from starting processes there."""
+    tree = _scan(repo, "loky/backend/popen_loky_posix.py")
+    main = [n for n in tree.body if isinstance(n, _ast.If) and _ast.unparse(n.test) in ("__name__ == '__main__'", '__name__ == "__main__"')]
+    loads_all, loads_guarded, guards = [], [], 0
+    for blk in main:
+        parent = {}
+        for n in _ast.walk(blk):
+            for ch in _ast.iter_child_nodes(n):
+                parent[ch] = n
+        for n in _ast.walk(blk):
+            if isinstance(n, _ast.Try) and any(isinstance(f, _ast.Delete) and "_inheriting" in _ast.unparse(f) for f in n.finalbody):
+                # the flag must have been set by the statement just before the try
+                body_of = parent.get(n)
+                seq = getattr(body_of, "body", [])
+                k = seq.index(n) if n in seq else -1
+                if k > 0 and isinstance(seq[k - 1], _ast.Assign) and _ast.unparse(seq[k - 1]).replace(" ", "") == "process.current_process()._inheriting=True":
+                    guards += 1
+                    for m in n.body:
+                        for c_ in _ast.walk(m):
+                            if isinstance(c_, _ast.Call) and _ast.unparse(c_.func) in ("pickle.load", "spawn.prepare"):
+                                loads_guarded.append(f"{c_.lineno}: {_ast.unparse(c_)}")
+            if isinstance(n, _ast.Call) and _ast.unparse(n.func) in ("pickle.load", "spawn.prepare"):
+                loads_all.append(f"{n.lineno}: {_ast.unparse(n)}")
+    ok = len(main) == 1 and guards == 1 and sorted(loads_all) == sorted(loads_guarded) and \
+        sum("pickle.load" in l for l in loads_all) == 2 and sum("spawn.prepare" in l for l in loads_all) == 1
+    return [_ob("loky.backend.popen_loky_posix:<module>:structural/everything-received-from-the-parent-is-unpickled-inside-the-bootstrapping-guard", ok,
+                f"received: {sorted(loads_all)}; inside the guard: {sorted(loads_guarded)}; guards: {guards}")]
+
+
+def scan_python_exit_order(repo, tier, seed):
+    """C05 (interpreter exit): _python_exit publishes _global_shutdown *before* it wakes the manager threads: a manager woken first re-reads the flag
+    (is_shutting_down), finds it clear, goes back to waiting, and the join of _python_exit never returns (the wake-up was the only one)."""
+    tree = _scan(repo, "loky/process_executor.py")
+    fns = [n for n in tree.body if isinstance(n, _ast.FunctionDef) and n.name == "_python_exit"]
+    ok, detail = False, "no _python_exit"
+    if len(fns) == 1:
+        fn = fns[0]
+        declares = any(isinstance(s_, _ast.Global) and "_global_shutdown" in s_.names for s_ in fn.body)
+        set_line = min([s_.lineno for s_ in _ast.walk(fn) if isinstance(s_, _ast.Assign) and _ast.unparse(s_).replace(" ", "") == "_global_shutdown=True"] or [0])
+        top_level_set = any(isinstance(s_, _ast.Assign) and _ast.unparse(s_).replace(" ", "") == "_global_shutdown=True" for s_ in fn.body)
+        wake = [c_.lineno for c_ in _ast.walk(fn) if isinstance(c_, _ast.Call) and isinstance(c_.func, _ast.Attribute) and c_.func.attr in ("wakeup", "join")]
+        ok = declares and top_level_set and set_line > 0 and bool(wake) and all(set_line < w for w in wake)
+        detail = f"flag set at line {set_line} (unconditionally: {top_level_set}); wake-ups / joins at lines {sorted(wake)}"
+    return [_ob("loky.process_executor:_python_exit:structural/shutdown-flag-published-before-any-manager-thread-is-woken-or-joined", ok, detail)]
+
+
 def scan_pending_snapshots(repo, tier, seed):
     """The table of pending work items is shared by the manager thread, the submitting threads (under the shutdown lock) and the feeder thread, whose
     error handler pops an item whenever a task cannot be sent: every loop / comprehension over it runs on a snapshot (list(...)), never on the live
@@ -321,7 +371,7 @@ PROPS["C19"] = dict(
     not_covered="the 'fork' branch is proved as written (the start-method name is an arbitrary string); the kernel/interpreter actually passing the argument tuple.",
     assumptions=["A-posix", "A-user"],
     abstractions=COMMON_ABS,
-    extra=[scan_depth_assignments, scan_worker_spawn_sites],
+    extra=[scan_depth_assignments, scan_worker_spawn_sites, scan_bootstrap_guard],
 )
 
 PROPS["C02"] = dict(
@@ -355,7 +405,7 @@ PROPS["C05"] = dict(
     not_covered="that results in flight are delivered before the manager leaves; sentinel/time-out races; termination of the sentinel loop; atexit ordering.",
     assumptions=["A-atomic", "A-alias", "A-pids", "A-posix"],
     abstractions=EXEC_ABS,
-    extra=[scan_table_snapshots, scan_manager_fields, scan_after_fork_hook],
+    extra=[scan_table_snapshots, scan_manager_fields, scan_after_fork_hook, scan_python_exit_order],
 )
 PROPS["C06"] = dict(
     proved="with kill_workers read true every pending future gets a ShutdownExecutorError, the pending map is emptied, no result is fabricated, every registered "
